@@ -131,6 +131,12 @@ def worldLoc (p : Props) (snaps : List SnapDesc) (j : Json) : Except String STer
     match snaps[s]? with
     | some d => pure (snapLoc p (snapshotName (snapStoredOf p s d)))
     | none => throw "unknown snapshot"
+  | [Json.str "snapalias", s, g] => do
+    -- the name of snapshot `s` filed under a tag the adversary made up
+    let s ← s.getNat?
+    match snaps[s]? with
+    | some d => pure (.pair prefixSnap (.pair (.pub (2000000 + (← g.getNat?))) (snapshotName (snapStoredOf p s d))))
+    | none => throw "unknown snapshot"
   | [Json.str "other", g] => do pure (.pair (.pub 7) (.pub (← g.getNat?)))
   | [Json.str "config"] => pure configLoc
   | _ => throw "bad location descriptor"
